@@ -38,6 +38,7 @@ const (
 	getBlockWatchdog = 60 * time.Second
 	lateAnswer       = 700 * time.Millisecond // an honest answer slower than this (peer side) makes a non-responder ban plausible
 	stallLimit       = 400 * time.Millisecond // harness scheduling hiccup above which latency-sensitive rules go inconclusive
+	conflictRounds   = 3                      // at-tip filter-hash conflicts (liar vs honest answer to the same request) after which an unbanned liar is a violation, given the disputed block was served
 	cpOnlyRounds     = 3                      // rounds of checkpoint conflict resolution after which an unbanned checkpoint-only liar is a violation
 )
 
@@ -269,8 +270,19 @@ func EnforceScenario(seed int64, k int, res *l2.Result) {
 
 	if x.giveUp == nil {
 		// With every honest peer banned the client cannot reach the honest
-		// tip any more: no point in waiting for it.
+		// tip any more: no point in waiting for it. Nor when an at-tip liar
+		// was asked for the same filter headers over and over without being
+		// banned (steering only: the oracle counts the rounds from the log).
 		x.giveUp = func() bool {
+			if !plan.checkpointed() {
+				for _, ep := range e.Peers {
+					if ep.Plan.Class == clLiar && !ep.Plan.Late && ep.P.RxCount("getcfheaders") >= conflictRounds+3 {
+						if _, banned := x.sight(ep.P.Addr); !banned {
+							return true
+						}
+					}
+				}
+			}
 			n := 0
 			for _, ep := range e.Peers {
 				if ep.Plan.Class == clHonest || ep.Plan.Class == clSlow {
@@ -554,6 +566,12 @@ type peerEnd struct {
 
 	LieTold     string   `json:",omitempty"` // how the lie was told: "", "cfheaders", "cfheaders-prev", "cfcheckpt", "cfcheckpt-only"
 	LieRounds   int      `json:",omitempty"` // checkpoint-only liar: cfcheckpt messages with the false checkpoint it sent
+	// ConflictRounds: how often this liar answered, with its false filter
+	// hash, a getcfheaders request an honest peer answered as well;
+	// DisputedBlockServed: how often a peer then served the (true) disputed
+	// block to the client (everything needed to prove the lie was in its hands).
+	ConflictRounds      int `json:",omitempty"`
+	DisputedBlockServed int `json:",omitempty"`
 	Detectable  string   `json:",omitempty"` // why the client could see the conflict ("" = it could not)
 	DetectSeq   int64    `json:",omitempty"` // log Seq of the first message that made it visible
 	BadServed   int      `json:",omitempty"` // mutated blocks sent in answer to getdata
@@ -836,6 +854,7 @@ func (x *enfRun) lieFacts(f *enfEnd, evs []netsim.Event) {
 							pe.Detectable = "the response contradicts the (true) filter checkpoints this very peer had served before"
 						case honestAnswered[pend.Note]:
 							pe.Detectable = "an honest peer answered the same getcfheaders request"
+							pe.ConflictRounds++
 						case pe.Detectable == "" && firstHonestCP >= 0 && firstHonestCP < ev.Seq && e.Plan.checkpointed() &&
 							int(ep.Plan.Lie.Height) <= e.Plan.ChainLen/1000*1000:
 							pe.Detectable = "an honest peer's filter checkpoints were known before the lie was told"
@@ -845,6 +864,23 @@ func (x *enfRun) lieFacts(f *enfEnd, evs []netsim.Event) {
 						}
 					}
 					pend = nil
+				}
+			}
+		}
+		if ep.Liar != nil && pe.DetectSeq > 0 {
+			if lieNode := tip.Ancestor(ep.Plan.Lie.Height); lieNode != nil {
+				pfx := lieNode.Hash.String()[:8]
+				for _, hp := range e.Peers {
+					if hp.Bad != nil { // serves altered blocks
+						continue
+					}
+					for _, cv := range byAddr[hp.P.Addr].views {
+						for _, ev := range cv.evs {
+							if ev.Dir == "tx" && ev.Cmd == "block" && ev.Seq > pe.DetectSeq && strings.HasPrefix(ev.Note, pfx) {
+								pe.DisputedBlockServed++
+							}
+						}
+					}
 				}
 			}
 		}
@@ -1012,6 +1048,7 @@ func (x *enfRun) judge(f *enfEnd) {
 		// (a)/(b): who MUST be banned, and why.
 		mustReason := []string(nil)
 		why := ""
+		pathSuffix := ""
 		switch pe.Class {
 		case clNoCF, clNoWit, clNoBoth:
 			if pe.VersionSent {
@@ -1038,6 +1075,15 @@ func (x *enfRun) judge(f *enfEnd) {
 				mustReason = []string{"InvalidFilterHeader", "InvalidFilterHeaderCheckpoint"}
 				why = "it served a provably false filter hash (" + pe.Label + ") while " + pe.Detectable +
 					", and the client's committed filter headers passed that height"
+			} else if pe.LieTold == "cfheaders" && pe.ConflictRounds >= conflictRounds && pe.DisputedBlockServed > 0 &&
+				!e.Plan.checkpointed() {
+				// Bounded progress instead of "eventually": the conflict was
+				// on the client's table several times over and it was handed
+				// the block that decides it.
+				mustReason = []string{"InvalidFilterHeader", "InvalidFilterHeaderCheckpoint"}
+				why = fmt.Sprintf("it served a provably false filter hash (%s) while %s, %d times over, and the disputed block was served to the client %d time(s) after the conflict first became visible; committed filter tip %d, lie at height %d",
+					pe.Label, pe.Detectable, pe.ConflictRounds, pe.DisputedBlockServed, f.FilterTip, lieH)
+				pathSuffix = "/conflict-resolution-went-round-in-circles"
 			}
 		case clCPOnly:
 			res.Count("enf_checkpoint_only_lie_rounds", int64(pe.LieRounds))
@@ -1061,7 +1107,7 @@ func (x *enfRun) judge(f *enfEnd) {
 				if pe.Class == clNoCF || pe.Class == clNoWit || pe.Class == clNoBoth {
 					rule = "c13-enf/a/missing-service-not-banned"
 				}
-				violate(pe, evid.Sig(rule, pe.Label, path),
+				violate(pe, evid.Sig(rule, pe.Label, path+pathSuffix),
 					fmt.Sprintf("%s peer %s is NOT banned (IsBanned=%v, store banned=%v) although %s", pe.Label, pe.Addr, pe.BannedAPI, pe.StoreBanned, why))
 			case !contains(mustReason, pe.StoreReason):
 				violate(pe, evid.Sig("c13-enf/ab/wrong-reason", pe.Label, "recorded="+orNone(pe.StoreReason)),
